@@ -181,7 +181,9 @@ def loopless_solution(
         fluxes = sol.fluxes
         opt = sol.objective_value
     else:
-        opt = model.slim_optimize()
+        # without an optimum there is no objective value to keep (a NaN bound
+        # makes some solvers abort the whole process)
+        opt = model.slim_optimize(error_value=None)
 
     with model:
         prob = model.problem
